@@ -59,12 +59,14 @@ func C01(c *Ctx) {
 	r.Explanation = "(A6) nondeterminism / out-of-band-state taint over the repo call graph from all consensus roots (MsgServer methods, ante decorators of the chain, Begin/EndBlock, InitGenesis, ValidateBasic/GetSigners, invariants, migrations): no wall clock, math/rand or crypto/rand, environment/CPU queries, file or network I/O, goroutines, select, channel operations, unsafe conversions, architecture-dependent floating point, or iteration over a map is reachable, except by three value-flow exceptions that are themselves checked: " +
 		"a wall-clock value whose every use is an argument of cosmos-sdk/telemetry; a wall-clock read dominated by a predicate on a message field that the message's own ValidateBasic provably rejects (the pair is the obligation); a map range whose body has no store access of any kind (reads are gas-metered), event or bank effect and whose only escaping values are errors wrapping a loop-invariant sentinel. " +
 		"Out-of-band state: no assignment to a package-level variable outside init and no store through a keeper/decorator receiver is reachable, no package-level variable written outside init is read on a consensus path. Necessary conditions for C01; hash equality itself and the determinism/crash-atomicity of the SDK, IAVL and CometBFT are trusted."
-	r.Rules = []string{"A6.sources", "A6.root-clean", "A6.wallclock-telemetry", "A6.wallclock-refuted", "A6.map-range", "A6.global-write", "A6.global-read", "A6.keeper-mutation", "A6.float"}
+	r.Rules = []string{"A6.sources", "A6.root-clean", "A6.wallclock-telemetry", "A6.wallclock-refuted", "A6.map-range", "A6.global-write", "A6.global-read", "A6.keeper-mutation", "A6.float", "A6.persistent-store", "A6.module-account-at-genesis"}
 	r.Trusted = []string{"cosmos-sdk baseapp / store / IAVL / CometBFT determinism and crash recovery", "baseapp, authz, gov and group call ValidateBasic on every (nested) message before dispatch", "telemetry does not feed back into state"}
 	r.NotDecided = []string{"equality of application hashes", "gas accounting equality", "restart/replay behaviour (governed by the multistore)"}
 
 	scope := consensusScope(c, consensusKinds)
 	r.Analysed["functions_on_consensus_paths"] = len(scope)
+	persistentStores(c)
+	moduleAccountsAtGenesis(c)
 	if os.Getenv("MCDEBUG") == "dyn" {
 		var fl []*ssa.Function
 		for f := range scope {
@@ -202,15 +204,21 @@ func C01(c *Ctx) {
 		hit := map[string]bool{}
 		for _, o := range r.Obls[mark:] {
 			if o.Status == "violated" {
-				for _, nm := range []string{"MutatesHeld", "MutatesMap", "MutatesViaHelper", "MutatesField", "LocalCopyOnly"} {
+				for _, nm := range []string{"MutatesHeld", "MutatesMap", "MutatesViaHelper", "MutatesField", "LocalCopyOnly", "ValidatedMemo", "UnvalidatedMemo", "MixedMemo"} {
 					if strings.Contains(o.Key, nm) {
 						hit[nm] = true
+					}
+					if strings.Contains(o.Key, "."+nm+"|") {
+						hit["."+nm] = true
 					}
 				}
 			}
 		}
 		r.Obls = r.Obls[:mark]
 		r.Control("A6.keeper-mutation", "fixtures/c01", hit["MutatesHeld"] && hit["MutatesMap"] && hit["MutatesViaHelper"] && hit["MutatesField"] && !hit["LocalCopyOnly"])
+		// the memo exception: a memo of a pure function read back only against its witness is not a finding; one that answers by
+		// id alone, and one filled with a value that is not a function of its witness, still are
+		r.Control("A6.keeper-mutation|validated-memo", "fixtures/c01", !hit[".ValidatedMemo"] && hit["UnvalidatedMemo"] && hit["MixedMemo"])
 	}
 	r.Control("A6.sources", "fixtures/c01", kinds["WallClock"] && kinds["Goroutine"] && kinds["MapRange"] && kinds["Rand"] && kinds["GlobalWrite"])
 }
@@ -526,6 +534,9 @@ func keeperMutationRule(c *Ctx, fs []*ssa.Function, rule string) {
 				}
 				var bases []memBase
 				for _, target := range targets {
+					if c.throughValidatedMemo(target) {
+						continue // the memo of a pure function, handed out only against the witness it was computed from (memo.go)
+					}
 					sharedBases(target, 0, map[ssa.Value]bool{}, &bases)
 				}
 				for _, mb := range bases {
@@ -579,7 +590,7 @@ func C14(c *Ctx) {
 	w, r := c.W, c.R
 	r.Explanation = "(A10) abort-source inventory on the block-level roots (BeginBlock, EndBlock, registered invariants) over the repo call graph: every explicit panic and every call of a panicking SDK API reachable from them is enumerated; each must be discharged by its class — lookup of an id read from the queue section it iterates (found / status panics, consistent by C03's writer rules), error of a setter that fails only on an invalid constant, permission panics excluded by the evaluated maccPerms (enterprise holds Minter and Staking) — or appear in the reviewed table keyed by function, kind and ordinal; anything else is a violation. " +
 		"Denomination provenance: a Coin.Add/Sub on a block-level path whose operands take their denomination from different sources (module parameter vs stored record) is flagged. (b) handlers and ante decorators keep all state in the transaction-scoped stores: C01's out-of-band-state rule restricted to MSG ∪ ANTE roots, so baseapp's rollback covers everything a failed transaction did. (c) error discipline (A8): on every transaction, block and genesis path the error result of a call that can change state (store write/delete or bank move, directly or through in-scope callees) has at least one use — a discarded error would let a handler commit the remaining steps of a half-failed operation, since baseapp rolls back only on a returned error. Atomicity and panic recovery of runTx are trusted; reachability of reviewed panics over all histories is not decided."
-	r.Rules = []string{"A10.block-panics", "A2.panic-class", "A10.denom-provenance", "A5.module-permissions", "A6.tx-scoped-state", "A6.no-recover", "A8.error-propagation", "A10.implicit-panic", "A3.queue-membership"}
+	r.Rules = []string{"A10.block-panics", "A2.panic-class", "A10.denom-provenance", "A5.module-permissions", "A6.tx-scoped-state", "A6.no-recover", "A8.error-propagation", "A10.implicit-panic", "A3.queue-membership", "A5.blocked-addresses", "A3.tally-pairing", "A3.completion-pairing"}
 	// the begin-blocker panics on a queued order in another status: an id reaches a queue only with that status
 	queueMembership(c)
 	r.Trusted = []string{"baseapp runTx: cache-wrapped stores, panic recovery, all-or-nothing message execution", "reasons in the reviewed table"}
@@ -648,6 +659,11 @@ func C14(c *Ctx) {
 		_, hasStream := mp["stream"]
 		r.Require(hasStream, "A5.module-permissions", "stream", mpos, "the stream module account is registered", "missing from maccPerms")
 	}
+	// the mint route's send to the purchaser cannot be refused by the bank (the "mint-route-error" panic class): the only
+	// module account that can sign a purchase order — governance, through a proposal — is exempt from the blocked list
+	blockedAddresses(c, nil, "gov")
+	// ... and no order stays on a queue whose status it has left (the next block's step panics on it, at every block)
+	statusPairing(c)
 	// (b) tx-scoped state
 	txScope := consensusScope(c, []string{"MSG", "ANTE"})
 	var tfs []*ssa.Function
@@ -708,8 +724,19 @@ func C14(c *Ctx) {
 	r.Floor("state-changing fallible call sites on transaction/block/genesis paths", sites, 40)
 	mark := len(r.Obls)
 	_, ctl := errorPropagation(c, ffs, "A8.error-propagation")
+	tst := map[string]bool{}
+	for _, o := range r.Obls[mark:] {
+		if o.Status == "violated" && strings.HasSuffix(o.Key, "|tested") {
+			for _, nm := range []string{"TestsOtherError", "TestsItsError"} {
+				if strings.Contains(o.Key, nm) {
+					tst[nm] = true
+				}
+			}
+		}
+	}
 	r.Obls = r.Obls[:mark] // fixture findings are controls, not findings about /repo
 	r.Control("A8.error-propagation", "fixtures/c14", ctl >= 2)
+	r.Control("A8.error-propagation|tested", "fixtures/c14", tst["TestsOtherError"] && !tst["TestsItsError"])
 }
 
 func blockAPI(c *Ctx, f *ssa.Function, call *ssa.Call, e *ir.Expr, kind, key string) {
@@ -1092,6 +1119,17 @@ func lenGuarded(c *Ctx, f *ssa.Function, at ssa.Instruction, idx, s ssa.Value) b
 	}, 0) {
 		return true
 	}
+	// the end index the SDK's length-prefixed reader handed back for the same bytes: ParseLengthPrefixedBytes(bz, start, n)
+	// asserts len(bz) >= start+n and returns start+n-1
+	if ex, ok := idx.(*ssa.Extract); ok && ex.Index == 1 {
+		if pc, ok := ex.Tuple.(*ssa.Call); ok {
+			if sc := pc.Common().StaticCallee(); sc != nil && sc.Name() == "ParseLengthPrefixedBytes" && len(pc.Common().Args) == 3 && w.ExprOf(pc.Common().Args[0]).String() == ss {
+				if n, isC := pc.Common().Args[2].(*ssa.Const); isC && n.Value != nil && n.Int64() >= 1 && (pc.Block() == at.Block() || pc.Block().Dominates(at.Block())) {
+					return true
+				}
+			}
+		}
+	}
 	// a constant index below the length an SDK key-length assertion on the same bytes has just insisted on
 	// (kv.AssertKeyAtLeastLength(bz, n) panics with a message of its own for a short key: that explicit abort is the
 	// key-parsing class inventoried with the SDK's length-prefixed reader)
@@ -1383,4 +1421,127 @@ func funcValueTargets(c *Ctx, v ssa.Value, depth int) (out []*ssa.Function, know
 		return out, known && n > 0
 	}
 	return nil, false
+}
+
+// persistentStores (A6.persistent-store): the store key the application hands to each of the repository's keepers is a
+// key of the committed, hashed multistore (*KVStoreKey). A memory or transient store key satisfies the same StoreKey
+// interface and behaves the same within one process, but a memory store is neither written to disk nor part of the
+// application hash, and a transient store is emptied at every commit: a module kept there is lost at the first restart
+// and the replicas' hashes no longer cover it.
+func persistentStores(c *Ctx) {
+	w, r := c.W, c.R
+	n := 0
+	for _, f := range w.PkgFuncs("app") {
+		for _, b := range f.Blocks {
+			for _, in := range b.Instrs {
+				call, ok := in.(*ssa.Call)
+				if !ok {
+					continue
+				}
+				sc := call.Common().StaticCallee()
+				if sc == nil || ir.FnPkg(sc) == nil || !ir.InScope(ir.FnPkg(sc)) || len(sc.Blocks) == 0 || ir.ModuleOf(sc) == "" {
+					continue // (the application's own helper for the SDK's params keeper passes that keeper its transient key)
+				}
+				for i, a := range call.Common().Args {
+					if i >= sc.Signature.Params().Len()+recvCount(sc) {
+						break
+					}
+					if !isStoreKeyType(a.Type()) {
+						continue
+					}
+					if _, isIface := a.Type().Underlying().(*types.Interface); !isIface {
+						continue
+					}
+					mi, ok := a.(*ssa.MakeInterface)
+					if !ok {
+						continue
+					}
+					n++
+					t := mi.X.Type().String()
+					// ... and it is the module's own key: two keepers on one key share one key space (the modules use the same
+					// prefix bytes, and each keeps its id counter there)
+					keyName := ""
+					w.Expand(w.ExprOf(mi.X), 2).Walk(func(z *ir.Expr) bool {
+						if z.Op == "const" && strings.HasPrefix(z.Name, `"`) {
+							keyName = strings.Trim(z.Name, `"`)
+						}
+						return true
+					})
+					if keyName != "" {
+						r.Require(keyName == ir.ModuleOf(sc), "A6.persistent-store", fn(sc)+"|"+fmt.Sprint(i)+"|own-key", pos(c, in),
+							"each keeper of the repository is handed the store key of its own module", "the "+ir.ModuleOf(sc)+" keeper is handed keys[\""+keyName+"\"]")
+					}
+					r.Require(strings.HasSuffix(t, "store/types.KVStoreKey"), "A6.persistent-store", fn(sc)+"|"+fmt.Sprint(i), pos(c, in),
+						"a keeper of the repository is handed a key of the committed multistore (*KVStoreKey): its state survives a restart and is covered by the application hash",
+						"the store key argument is a "+t)
+				}
+			}
+		}
+	}
+	r.Floor("store keys handed to the repository's keepers by the application", n, 4)
+}
+
+func recvCount(f *ssa.Function) int {
+	if f.Signature.Recv() != nil {
+		return 1
+	}
+	return 0
+}
+
+// moduleAccountsAtGenesis (A6.module-account-at-genesis): the auth keeper's GetModuleAccount *creates* a module account
+// that does not exist yet — it takes the next global account number and writes the account. A module that asks for its
+// account on a transaction, block, invariant or query path therefore makes sure the account exists when the chain starts:
+// its genesis import reaches GetModuleAccount / SetModuleAccount. Otherwise the first caller creates it, and whether and
+// when that happens depends on who calls first: an invariant run by x/crisis every --inv-check-period blocks (a node-local
+// flag), a query served from a node's own state — replicas then disagree on account numbers and application hash.
+func moduleAccountsAtGenesis(c *Ctx) {
+	w, r := c.W, c.R
+	callsMAcc := func(f *ssa.Function, names ...string) ssa.Instruction {
+		for _, b := range f.Blocks {
+			for _, in := range b.Instrs {
+				call, ok := in.(ssa.CallInstruction)
+				if !ok || !call.Common().IsInvoke() {
+					continue
+				}
+				for _, nm := range names {
+					if call.Common().Method.Name() == nm {
+						return in
+					}
+				}
+			}
+		}
+		return nil
+	}
+	n := 0
+	for _, m := range ir.Modules {
+		var user ssa.Instruction
+		var fs []*ssa.Function
+		for f := range w.Reachable(w.RootSet("MSG", "ANTE", "BEGIN", "END", "INV", "QUERY")) {
+			if ir.ModuleOf(f) == m && !w.IsGenerated(f) {
+				fs = append(fs, f)
+			}
+		}
+		sortFuncs(fs)
+		for _, f := range fs {
+			if in := callsMAcc(f, "GetModuleAccount"); in != nil && user == nil {
+				user = in
+			}
+		}
+		if user == nil {
+			continue
+		}
+		n++
+		made := false
+		for _, root := range w.Roots["INITGEN:"+m] {
+			for f := range w.Reachable([]*ssa.Function{root}) {
+				if callsMAcc(f, "GetModuleAccount", "SetModuleAccount") != nil {
+					made = true
+				}
+			}
+		}
+		r.Require(made, "A6.module-account-at-genesis", m, pos(c, user),
+			"a module that asks the auth keeper for its module account at run time creates that account in its genesis import (GetModuleAccount creates a missing account, taking the next account number, whoever calls it first)",
+			"the genesis import of "+m+" reaches neither GetModuleAccount nor SetModuleAccount")
+	}
+	r.Floor("modules using a module account at run time", n, 2)
 }
